@@ -43,6 +43,7 @@ ANCHORS = ["aiomysensors.gateway:Gateway.__aenter__", "aiomysensors.gateway:Gate
            "aiomysensors.persistence:Persistence.start", "aiomysensors.persistence:Persistence.stop",
            "aiomysensors.persistence:Persistence.save", "aiomysensors.persistence:Persistence.load"]
 SAVE_BOUND = 900
+OPTIONS_IN_FORCE: dict = {}  # non-default values of Config options this harness does not know (unknown_option_pass)
 
 
 class BodyError(Exception):
@@ -109,7 +110,7 @@ async def context_scenario(params: dict, path: str, *, real_time: bool = False) 
 
     result: dict = {"params": params}
     transport = params.get("_transport") or make_transport(params["transport"], params)
-    gateway = Gateway(transport, Config(persistence_file=path))
+    gateway = Gateway(transport, Config(persistence_file=path, **OPTIONS_IN_FORCE))
     before_tasks = set(asyncio.all_tasks())
     observed: BaseException | None = None
     final_snapshot = None
@@ -265,7 +266,7 @@ def connect_failure_case(ctx, workdir: str, name: str, file_state: str) -> None:
             transport.connect = never  # type: ignore[method-assign]
         else:
             transport.connect_error = CONNECT_ERRORS[name]()
-        gateway = Gateway(transport, Config(persistence_file=path))
+        gateway = Gateway(transport, Config(persistence_file=path, **OPTIONS_IN_FORCE))
         before = set(asyncio.all_tasks())
         observed = None
         try:
@@ -320,7 +321,7 @@ def cancelled_exit_case(ctx, workdir: str, transport_kind: str, k: int, how: str
 
     async def scenario() -> dict:
         transport = make_transport(transport_kind, {"mode": "normal"})
-        gateway = Gateway(transport, Config(persistence_file=path))
+        gateway = Gateway(transport, Config(persistence_file=path, **OPTIONS_IN_FORCE))
         state: dict = {"entered": False}
         before = set(asyncio.all_tasks())
 
@@ -407,7 +408,7 @@ def late_exit_case(ctx, workdir: str, periods: int, k: int, mode: str) -> None:
 
     async def scenario() -> dict:
         transport = make_transport("scripted", {"mode": mode})
-        gateway = Gateway(transport, Config(persistence_file=path))
+        gateway = Gateway(transport, Config(persistence_file=path, **OPTIONS_IN_FORCE))
         before = set(asyncio.all_tasks())
         observed = None
         try:
@@ -472,7 +473,7 @@ def long_horizon_case(ctx, workdir: str, hours: int) -> None:
 
     async def scenario() -> dict:
         loop = asyncio.get_running_loop()
-        gateway = Gateway(ScriptedTransport(), Config(persistence_file=path))
+        gateway = Gateway(ScriptedTransport(), Config(persistence_file=path, **OPTIONS_IN_FORCE))
         problems = []
         checks = 0
         observed = None
@@ -553,7 +554,7 @@ def builtin_connect_failure_case(ctx, workdir: str, name: str) -> None:
             await make().connect()
         except BaseException as exc:  # noqa: BLE001
             reference = exc
-        gateway = Gateway(make(), Config(persistence_file=path))
+        gateway = Gateway(make(), Config(persistence_file=path, **OPTIONS_IN_FORCE))
         before = set(asyncio.all_tasks())
         observed = None
         try:
@@ -615,7 +616,7 @@ def traffic_exit_case(ctx, workdir: str, transport_kind: str, k: int, ending: st
 
     async def scenario() -> dict:
         transport = make_transport(transport_kind, {"mode": "normal"})
-        gateway = Gateway(transport, Config(persistence_file=path))
+        gateway = Gateway(transport, Config(persistence_file=path, **OPTIONS_IN_FORCE))
         before = set(asyncio.all_tasks())
         observed = None
         state: dict = {}
@@ -715,7 +716,7 @@ def many_sessions_case(ctx, workdir: str, sessions: int) -> None:
 
     async def scenario() -> dict:
         problems = []
-        gateway = Gateway(ScriptedTransport(), Config(persistence_file=path))
+        gateway = Gateway(ScriptedTransport(), Config(persistence_file=path, **OPTIONS_IN_FORCE))
         before = set(asyncio.all_tasks())
         for index in range(sessions):
             gateway.nodes[index % 200] = Node(index % 200, 17, "2.0", heartbeat=index)
@@ -758,7 +759,7 @@ def second_session_case(ctx, workdir: str, transport_kind: str, k: int) -> None:
     async def scenario() -> dict:
         problems = []
         transport = make_transport(transport_kind, {"mode": "normal"})
-        gateway = Gateway(transport, Config(persistence_file=path))
+        gateway = Gateway(transport, Config(persistence_file=path, **OPTIONS_IN_FORCE))
         async with gateway:
             for _ in range(k):
                 await asyncio.sleep(0)
@@ -830,7 +831,7 @@ def traffic_cadence_case(ctx, workdir: str, gap: float) -> None:
     async def scenario() -> dict:
         transport = PacedTransport()
         transport.gap = gap
-        gateway = Gateway(transport, Config(persistence_file=path))
+        gateway = Gateway(transport, Config(persistence_file=path, **OPTIONS_IN_FORCE))
         gateway.protocol_version = "2.2"
         gateway.nodes[1] = Node(1, 17, "2.2", children={0: Child(0, 3)})
         problems = []
@@ -920,7 +921,7 @@ def split_task_case(ctx, workdir: str, transport_kind: str, how: str) -> None:
 
     async def scenario() -> dict:
         transport = make_transport(transport_kind, {"mode": "normal"})
-        gateway = Gateway(transport, Config(persistence_file=path))
+        gateway = Gateway(transport, Config(persistence_file=path, **OPTIONS_IN_FORCE))
         before = set(asyncio.all_tasks())
         stack = AsyncExitStack()
         observed = None
@@ -980,6 +981,97 @@ def split_task_case(ctx, workdir: str, transport_kind: str, how: str) -> None:
         ctx.violation("no-final-save", f"file after exit is not the final registry (file {status})", case)
 
 
+def cancelled_app_save_case(ctx, workdir: str, delay: float, at: float) -> None:
+    """Slow disk (every file operation takes `delay` virtual seconds); at `at` seconds the application changes the registry
+    and calls persistence.save() under a timeout that expires before the save is through.  The periodic saves are not the
+    application's business: the change is on disk 900 s (+ one slow save) after the last periodic save all the same."""
+    from aiomysensors.gateway import Config, Gateway
+    from aiomysensors.model.node import Node
+
+    path = os.path.join(workdir, "appsave.json")
+    prepare_file(path, "missing")
+    case = {"engine": "vloop", "cancelled_app_save": [delay, at]}
+
+    async def scenario() -> dict:
+        problems = []
+        gateway = Gateway(ScriptedTransport(), Config(persistence_file=path, **OPTIONS_IN_FORCE))
+        loop = asyncio.get_running_loop()
+        async with gateway:
+            start = loop.time()
+            await asyncio.sleep(at)
+            try:
+                await asyncio.wait_for(gateway.persistence.save(), delay * 1.5)
+                problems.append(("INCONCLUSIVE", "the application's save was not cut short"))
+            except (asyncio.TimeoutError, Exception):  # noqa: BLE001
+                pass
+            await asyncio.sleep(4 * delay)
+            gateway.nodes[70] = Node(70, 17, "2.0", sketch_name="changed after the application's cancelled save")
+            # entry save done by ~3*delay, periodic save due 900 s later, itself 3*delay long
+            await asyncio.sleep(start + 3 * delay + SAVE_BOUND + 3 * delay + 30 - loop.time())
+            status, disk = registry_on_disk(path)
+            if status != "ok" or disk != typed(snap(gateway.nodes)):
+                problems.append(("periodic-save-too-late", f"slow disk ({delay} s per file operation), application save cancelled "
+                                                           f"at {at} s: {int(loop.time() - start)} s after entry the change is not "
+                                                           f"on disk (file {status})"))
+        for t in [t for t in asyncio.all_tasks() if t is not asyncio.current_task()]:
+            t.cancel()
+        return {"problems": problems}
+
+    result, _loop = run_virtual(scenario, executor_delay=delay)
+    ctx.case(("cancelled-app-save", delay, at), sample=case)
+    if isinstance(result, LogicalDeadlock):
+        ctx.violation("context-deadlock", f"logical deadlock in {case}", case)
+    elif isinstance(result, BaseException):
+        from ..harness import scenario_exception
+
+        scenario_exception(ctx, result, case, "cancelled-app-save")
+    else:
+        ctx.clause("cadence-with-cancelled-application-save")
+        for key, what in result["problems"]:
+            if key == "INCONCLUSIVE":
+                ctx.obs("cancelled-app-save:" + what)
+            else:
+                ctx.violation(key, what, case)
+
+
+def unknown_option_pass(ctx, workdir: str) -> None:
+    """C16 holds however the gateway is configured: with every Config option this harness does not know set to a
+    non-default value, a slice of the exit-moment sweep, the sessions on one object (file replaced / removed in between,
+    registry emptied), the cadence to the second and the slow disk run again."""
+    from ..harness import unknown_options
+
+    options = unknown_options()
+    ctx.obs("unknown-config-options", len(options))
+    for index, extra in enumerate(options):
+        if not ctx.mine(index):
+            continue
+        OPTIONS_IN_FORCE.clear()
+        OPTIONS_IN_FORCE.update(extra)
+        original_violation = ctx.violation
+
+        def violation(key, what, case=None, _extra=dict(extra)):  # every witness of this pass carries its options (replay)
+            return original_violation(key, what, {**case, "options": _extra} if isinstance(case, dict) else case)
+
+        ctx.violation = violation
+        try:
+            for k in (0, 1, 2, 3, 4, 5, 6, 8, 12, 30):
+                for file_state in ("missing", "present"):
+                    deterministic_case(ctx, workdir, {"transport": "scripted", "mode": ("normal", "body-raises")[k % 2],
+                                                      "file": file_state, "k": k, "change": "both", "options": dict(extra)})
+            for variant in ("file-replaced", "file-replaced-and-registry-cleared", "emptied", "emptied-then-periodic", "file-removed"):
+                changed_file_between_sessions_case(ctx, workdir, "scripted", variant)
+            second_session_case(ctx, workdir, "scripted", 3)
+            exact_cadence_case(ctx, workdir, 3)
+            for periods in (1, 2):
+                for k in (0, 2, 5, 9):
+                    late_exit_case(ctx, workdir, periods, k, "normal")
+            slow_disk_case(ctx, workdir, 4, 3, "normal")
+            ctx.clause("unknown-option-pass")
+        finally:
+            OPTIONS_IN_FORCE.clear()
+            ctx.violation = original_violation
+
+
 def exact_cadence_case(ctx, workdir: str, periods: int) -> None:
     """'At least every 15 minutes', to the second: on the virtual clock file operations take no time, so a change made one
     second after the n-th save must be on disk 900.5 s after that save - a period of 901 s is already too long."""
@@ -992,7 +1084,7 @@ def exact_cadence_case(ctx, workdir: str, periods: int) -> None:
 
     async def scenario() -> dict:
         problems = []
-        gateway = Gateway(ScriptedTransport(), Config(persistence_file=path))
+        gateway = Gateway(ScriptedTransport(), Config(persistence_file=path, **OPTIONS_IN_FORCE))
         loop = asyncio.get_running_loop()
         async with gateway:
             start = loop.time()
@@ -1038,11 +1130,23 @@ def changed_file_between_sessions_case(ctx, workdir: str, transport_kind: str, v
 
     async def scenario() -> dict:
         problems = []
-        gateway = Gateway(make_transport(transport_kind, {"mode": "normal"}), Config(persistence_file=path))
+        gateway = Gateway(make_transport(transport_kind, {"mode": "normal"}), Config(persistence_file=path, **OPTIONS_IN_FORCE))
         async with gateway:
             await asyncio.sleep(1)
         first = typed(snap(gateway.nodes))
-        if variant in ("file-replaced", "file-replaced-and-registry-cleared"):
+        if variant == "file-removed":
+            os.unlink(path)  # somebody deleted the file while the gateway was down
+            async with gateway:
+                await asyncio.sleep(SAVE_BOUND + 5)
+                status, disk = registry_on_disk(path)
+                if status != "ok" or disk != typed(snap(gateway.nodes)):
+                    problems.append(("no-save-after-entry", f"the file was removed between two sessions: {SAVE_BOUND + 5} s into "
+                                                            f"the second session it does not hold the registry (file {status})"))
+            status, disk = registry_on_disk(path)
+            if status != "ok" or disk != typed(snap(gateway.nodes)):
+                problems.append(("no-final-save", f"the file was removed between two sessions: after the second exit it does not "
+                                                  f"hold the registry (file {status})"))
+        elif variant in ("file-replaced", "file-replaced-and-registry-cleared"):
             other = {77: Node(77, 17, "2.1", sketch_name="restored from backup",
                               children={4: Child(4, 6, description="from backup", values={0: "21.5"})})}
             await Persistence(other, path).save()
@@ -1106,7 +1210,7 @@ def multi_loop_sessions_case(ctx, workdir: str, sessions: int, k: int, engine: s
     path = os.path.join(workdir, "multiloop.json")
     prepare_file(path, "missing")
     case = {"engine": engine, "multi_loop_sessions": sessions, "k": k}
-    gateway = Gateway(ScriptedTransport(), Config(persistence_file=path))
+    gateway = Gateway(ScriptedTransport(), Config(persistence_file=path, **OPTIONS_IN_FORCE))
     problems: list[tuple[str, str]] = []
 
     async def session(index: int) -> None:
@@ -1218,7 +1322,7 @@ def live_traffic_case(ctx, workdir: str, n_nodes: int, n_children: int, seed: in
                 node = rng.choice(old_ids)
                 free = [c for c in range(0, 255) if c not in nodes[node].children]
                 transport.lines.append(f"{node};{rng.choice(free)};0;0;6;arrives during a save\n")
-        gateway = Gateway(transport, Config(persistence_file=path))
+        gateway = Gateway(transport, Config(persistence_file=path, **OPTIONS_IN_FORCE))
         gateway.protocol_version = "2.2"
         before = set(asyncio.all_tasks())
         observed = None
@@ -1284,7 +1388,7 @@ def cadence_case(ctx, workdir: str, hours: int, seed: int) -> None:
     async def scenario() -> dict:
         loop = asyncio.get_running_loop()
         transport = ScriptedTransport()
-        gateway = Gateway(transport, Config(persistence_file=path))
+        gateway = Gateway(transport, Config(persistence_file=path, **OPTIONS_IN_FORCE))
         problems = []
         checks = 0
         async with gateway:
@@ -1452,7 +1556,7 @@ def real_connect_failures(ctx, workdir: str) -> None:
         case = {"engine": "real", "connect_failure": name}
 
         async def scenario(factory=factory) -> dict:
-            gateway = Gateway(factory(), Config(persistence_file=path))
+            gateway = Gateway(factory(), Config(persistence_file=path, **OPTIONS_IN_FORCE))
             before = set(asyncio.all_tasks())
             observed = None
             try:
@@ -1500,6 +1604,8 @@ def real_connect_failures(ctx, workdir: str) -> None:
 
 def run_case(ctx, case: dict) -> None:
     workdir = str(scratch_dir("c16"))
+    OPTIONS_IN_FORCE.clear()
+    OPTIONS_IN_FORCE.update(case.get("options") or {})
     try:
         if "connect_error" in case:
             connect_failure_case(ctx, workdir, case["connect_error"], case["file"])
@@ -1515,6 +1621,8 @@ def run_case(ctx, case: dict) -> None:
             cancelled_exit_case(ctx, workdir, case["transport"], case["k"], case["cancelled_exit"], case["file"])
         elif "builtin_connect_failure" in case:
             builtin_connect_failure_case(ctx, workdir, case["builtin_connect_failure"])
+        elif "cancelled_app_save" in case:
+            cancelled_app_save_case(ctx, workdir, case["cancelled_app_save"][0], case["cancelled_app_save"][1])
         elif "split_task" in case:
             split_task_case(ctx, workdir, case["transport"], case["split_task"])
         elif "traffic_cadence_gap" in case:
@@ -1594,9 +1702,13 @@ def run(ctx) -> None:
                 for k in (0, 1, 3, 8, 20):
                     if ctx.mine():
                         second_session_case(ctx, workdir, transport, k)
+            unknown_option_pass(ctx, workdir)
+            for i, (delay, at) in enumerate(((4, 605), (10, 300), (2, 880), (20, 450))):
+                if ctx.mine(i + 1):
+                    cancelled_app_save_case(ctx, workdir, delay, at)
             for i, (transport, variant) in enumerate(itertools.product(
                     ("scripted", "mqtt-fake"), ("file-replaced", "file-replaced-and-registry-cleared", "emptied",
-                                                "emptied-then-periodic"))):
+                                                "emptied-then-periodic", "file-removed"))):
                 if ctx.mine(i):
                     changed_file_between_sessions_case(ctx, workdir, transport, variant)
             for i, (engine, sessions, k) in enumerate([("vloop", 2, 0), ("vloop", 3, 2), ("real", 2, 1), ("vloop", 2, 7),
